@@ -6,6 +6,7 @@ package main
 import (
 	"bytes"
 	"crypto/rand"
+	"encoding/hex"
 	"encoding/json"
 	"fmt"
 	"strconv"
@@ -139,8 +140,89 @@ func exec(op string) (res string) {
 	case "conc":
 		g, n := int(i64(1)), int(i64(2))
 		return concurrent(g, n)
+	// ---- property oracles: what the property demands, evaluated on the real code
+	case "tsround":
+		c, err := strconv.ParseUint(w[2], 10, 32)
+		if err != nil {
+			panic("bad clock")
+		}
+		u := gocql.TimeUUIDWith(i64(1), uint32(c), hx(3))
+		node := "nil"
+		if n := u.Node(); n != nil {
+			node = vh.Hex(n)
+		}
+		return fmt.Sprintf("ts=%d v=%d var=%d clock=%d node=%s", u.Timestamp(), u.Version(), u.Variant(), u.Clock(), node)
+	case "timeround":
+		t := time.Unix(i64(1), i64(2))
+		f := func(u gocql.UUID) string {
+			x := u.Time()
+			if x.IsZero() {
+				return "zero"
+			}
+			return fmt.Sprintf("%d.%d", x.Unix(), x.Nanosecond())
+		}
+		return f(gocql.MinTimeUUID(t)) + " " + f(gocql.MaxTimeUUID(t))
+	case "bound":
+		t := time.Unix(i64(1), i64(2))
+		u := uuidOf(hx(3))
+		if cassLe(gocql.MinTimeUUID(t), u) && cassLe(u, gocql.MaxTimeUUID(t)) {
+			return "bounded"
+		}
+		return "NOT-BOUNDED"
+	case "randchk":
+		b := hx(1)
+		old := rand.Reader
+		rand.Reader = bytes.NewReader(b)
+		defer func() { rand.Reader = old }()
+		u, err := gocql.RandomUUID()
+		if err != nil {
+			return "err"
+		}
+		return fmt.Sprintf("v=%d var=%d", u.Version(), u.Variant())
+	case "parsechk":
+		s := string(hx(1))
+		u, err := gocql.ParseUUID(s)
+		if err != nil {
+			return "ok"
+		}
+		// accepted: must be exactly 32 hex digits plus hyphens, and the value of the digits
+		var ds []byte
+		for _, r := range s {
+			switch {
+			case r == '-':
+			case r >= '0' && r <= '9', r >= 'a' && r <= 'f', r >= 'A' && r <= 'F':
+				ds = append(ds, byte(r))
+			default:
+				return "ACCEPTED-OUTSIDE-LANGUAGE"
+			}
+		}
+		want, err := hex.DecodeString(string(ds))
+		if len(ds) != 32 || err != nil || !bytes.Equal(want, u[:]) {
+			return "ACCEPTED-OUTSIDE-LANGUAGE"
+		}
+		return "ok"
 	}
 	return "bad-op"
+}
+
+// cassLe: Cassandra's TimeUUIDType order, written independently of gocql: RFC 4122 timestamp first,
+// then the low 8 bytes as signed bytes.
+func cassLe(a, b gocql.UUID) bool {
+	ts := func(u gocql.UUID) uint64 {
+		lo := uint64(u[0])<<24 | uint64(u[1])<<16 | uint64(u[2])<<8 | uint64(u[3])
+		mid := uint64(u[4])<<8 | uint64(u[5])
+		hi := (uint64(u[6])<<8 | uint64(u[7])) & 0x0fff
+		return hi<<48 | mid<<32 | lo
+	}
+	if ts(a) != ts(b) {
+		return ts(a) < ts(b)
+	}
+	for i := 8; i < 16; i++ {
+		if int8(a[i]) != int8(b[i]) {
+			return int8(a[i]) < int8(b[i])
+		}
+	}
+	return true
 }
 
 // concurrent generation: g goroutines x n calls of TimeUUID(); supporting evidence for pairwise distinctness.
@@ -373,6 +455,44 @@ func main() {
 	mult := 1
 	if tier == "thorough" {
 		mult = 30
+	}
+	// (first in the stream: the check driver keeps the first 50 disagreements, and these are the ones that
+	// name a failing input of the property itself)
+	// property oracles on the representable range
+	for i := 0; i < 2000*mult; i++ {
+		t, cls := genT(r)
+		t &= 1<<60 - 1
+		op := fmt.Sprintf("tsround %d %d %s", t, genClock(r), vh.Hex(r.Bytes(r.Intn(9))))
+		out.Case(op, exec(op), "tsround/"+cls[5:], true)
+		sec := timeBase + int64(r.U64()%uint64(maxSec-timeBase))
+		ns := int64(r.Intn(1000000000))
+		switch r.Intn(8) {
+		case 0:
+			sec, ns = timeBase, int64(r.Intn(200))
+		case 1:
+			sec, ns = maxSec, int64(r.Intn(684697600))
+		case 2:
+			sec, ns = maxSec, 684697599-int64(r.Intn(200))
+		case 3:
+			ns = []int64{0, 99, 100, 999999999, 999999900}[r.Intn(5)]
+		}
+		op = fmt.Sprintf("timeround %d %d", sec, ns)
+		out.Case(op, exec(op), "timeround", true)
+		// a version-1 RFC 4122 UUID of that instant: any clock, any node (all byte classes incl. 0x80 / 0x7f)
+		u := gocql.TimeUUIDWith(gocql.VerifGetTimestamp(time.Unix(sec, ns)), genClock(r), genUUIDBytes(r)[:6])
+		if r.Intn(3) == 0 {
+			for k := 9; k < 16; k++ {
+				u[k] = r.PickByte([]byte{0x80, 0x7f, 0x00, 0xff, 0x81, 0x7e})
+			}
+			u[8] = r.PickByte([]byte{0x80, 0xbf, 0x81, 0xbe, 0xa0})
+		}
+		op = fmt.Sprintf("bound %d %d %s", sec, ns, vh.Hex(u[:]))
+		out.Case(op, exec(op), "bound", true)
+		op = "randchk " + vh.Hex(genUUIDBytes(r))
+		out.Case(op, exec(op), "randchk", true)
+		s, scls := genString(r)
+		op = "parsechk " + vh.Hex([]byte(s))
+		out.Case(op, exec(op), "parsechk/"+scls[6:], true)
 	}
 	accepted := 0
 	for i := 0; i < 6000*mult; i++ {
